@@ -1,8 +1,8 @@
-(* C02 — Every emitted event reaches each accepting step exactly once (reducer level).
-   Statements only; every proof is `exact <lemma>` from Proofs/EngineRoute.v. *)
+(* C02 — Every emitted event reaches each accepting step exactly once (reducer level, then run-loop level).
+   Statements only; every proof is `exact <lemma>` from Proofs/EngineRoute.v and Proofs/RunnerConserve.v. *)
 From Coq Require Import List ZArith Bool PeanoNat.
 Import ListNotations.
-From WF Require Import Model.Engine Proofs.EngineCap Proofs.EngineRoute.
+From WF Require Import Model.Engine Model.Runner Proofs.EngineCap Proofs.EngineRoute Proofs.RunnerConserve.
 Open Scope Z_scope.
 
 (* The relation between a step's worker state before and after an add-event tick carrying attempt
@@ -79,3 +79,63 @@ Example C02_nonvacuous :
   loads (process_add (e 6) None s0 0) = ([0; 0; 0]%nat, [[]; [false]; []], 1%nat).
 Proof. vm_compute. repeat split; repeat constructor; cbn; intuition discriminate. Qed.
 Print Assumptions C02_nonvacuous.
+
+(* ---- the run loop (Model/Runner.v): every event becomes exactly one add-event tick, for EVERY schedule ----
+   Definitions spelled out so that the statement cannot be weakened elsewhere: the add-event ticks of a list; counting
+   by an arbitrary observation f (equal counts for every f = equal multisets, as far as any predicate can tell); the
+   events a command list queues; the commands the reducer returned along the processed-tick log. *)
+Theorem C02_run_loop_definitions_are : forall f l cs P s tl,
+  adds l = filter (fun t => match t with TAdd _ _ => true | _ => false end) l /\
+  cntf f l = length (filter f l) /\
+  queued_of cs = flat_map (fun c => match c with CQueue a tg _ => [TAdd a tg] | _ => [] end) cs /\
+  run_cmds P s tl = match tl with
+                    | [] => []
+                    | (t, now) :: r => match reduce P t s now with Ok (s', cs') => cs' ++ run_cmds P s' r | Err _ => [] end
+                    end.
+Proof. intros. repeat split; try reflexivity. destruct tl as [|[t now] r]; reflexivity. Qed.
+Print Assumptions C02_run_loop_definitions_are.
+
+(* While the run is live, whatever the schedule of worker completions (with any result lists and any events sent by
+   the bodies), external deliveries and clock advances: the events that ENTERED the run - the start event, every
+   event a reducer command queued (returned by a step, re-queued as a retry, routed to a handler), every event a step
+   body or a caller sent - are, with multiplicity, exactly the add-event ticks the reducer has PROCESSED (the tick
+   log, on which C02_routing_exact gives the per-step delivery) plus those still in the tick buffer, the mailbox or
+   the timer heap.  Nothing is lost, nothing is processed twice.  (After an exit command the run has ended:
+   "unless the run ends first".) *)
+Theorem C02_run_loop_conserves_events : forall P s e now acts,
+  Runner.outcome (run_at P s e now acts) = ORunning ->
+  let r := run_at P s e now acts in
+  (forall f, cntf f (adds (ticklog r)) + cntf f (adds (tbuf r)) + cntf f (adds (mailbox r)) +
+             cntf f (adds (map snd (wakeups r))) =
+             cntf f [TAdd (blank e) None] + cntf f (queued_of (run_cmds P s (tlog r))) + cntf f (adds (envlog r)))%nat /\
+  run_ticks P s (tlog r) = Ok (st r) /\ ticklog r = map fst (tlog r).
+Proof. exact run_conserves_events. Qed.
+Print Assumptions C02_run_loop_conserves_events.
+
+(* and the loop blocks (waits for the environment) only when the tick buffer and the mailbox are empty, no finished
+   worker is unharvested, no worker is unstarted and no timer is due: what is not yet processed then is exactly the
+   events waiting out a retry delay in the timer heap *)
+Theorem C02_run_loop_blocks_only_when_quiescent : forall P s e now acts,
+  Runner.outcome (run_at P s e now acts) = ORunning ->
+  let r := run_at P s e now acts in
+  tbuf r = [] /\ mailbox r = [] /\ donew r = [] /\ pending r = [] /\ fst (due (clock r) (wakeups r)) = [].
+Proof. exact run_blocks_only_when_quiescent. Qed.
+Print Assumptions C02_run_loop_blocks_only_when_quiescent.
+
+(* non-vacuity: a live run in which a step returned an event, a body sent one and a caller delivered one *)
+Example C02_run_loop_nonvacuous :
+  let c acc n := {| accepts := acc; nworkers := n; pol := None |} in
+  let wk acc n := {| w_cfg := c acc n; queue := []; inprogress := []; collected := []; waiters := [] |} in
+  let s0 := {| running := true;
+               cfg := {| c_handler_for := []; c_handlers := []; c_start := [0]; c_stop := [9];
+                         c_inputreq := [8]; c_ty_stepfailed := 7 |};
+               workers := [(1, wk [0] 1%nat); (2, wk [1] 2%nat)] |} in
+  let ev ty i := {| ety := ty; eid := i; eattrs := [] |} in
+  let acts := [AWorkerDone 1 0%nat [TAdd (blank (ev 1 5)) None] [RResult (OEvent (ev 1 6))];
+               ADeliver (TAdd (blank (ev 1 7)) None)] in
+  let r := run_at (fun _ _ _ _ => PStop) s0 (ev 0 1) 100 acts in
+  Runner.outcome r = ORunning /\ length (adds (ticklog r)) = 4%nat /\ length (adds (envlog r)) = 2%nat /\
+  length (queued_of (run_cmds (fun _ _ _ _ => PStop) s0 (tlog r))) = 1%nat /\
+  map (fun p => (length (inprogress (snd p)), length (queue (snd p)))) (workers (st r)) = [(0, 0); (2, 1)]%nat.
+Proof. vm_compute. repeat split; reflexivity. Qed.
+Print Assumptions C02_run_loop_nonvacuous.
